@@ -537,6 +537,15 @@ func (g *genCtx) genStep(c *Case, i int, wide bool) {
 				g.label("field:enabled")
 			}
 		}
+		if p.StopIf && s.Op == "op" && rapid.IntRange(0, 9).Draw(t, lbl+".stopif?") < 2 {
+			var c []source
+			c = append(c, g.pick("stage", false)...)
+			c = append(c, g.pick("obj", false)...)
+			if len(c) > 0 {
+				s.StopIf = ExprVal(c[rapid.IntRange(0, len(c)-1).Draw(t, lbl+".stopsrc")].expr)
+				g.label("field:stop_if")
+			}
+		}
 		if p.DeployTag && rapid.IntRange(0, 9).Draw(t, lbl+".deploy?") < 2 {
 			s.DeployTag = g.genTypedVal("string", lbl+".deploytag")
 			g.label("field:deploy")
